@@ -183,7 +183,7 @@ def rule_text(ctx, F):
         good = c[0] == "call" and c[1] == CARD_PAIR + "::new" and len(c[2]) == 2
 
         def parsed(t, lo, hi):
-            s = P.strip(t)
+            s = P.strip(P.narrow_variants(P.strip(t)))      # looks through `?` on a literal Ok(..)/Err(..) value
             if not (s[0] == "field" and s[1][0] == "variant" and s[1][2] == "Ok"):
                 return False
             cc = P.strip(s[1][1])
